@@ -374,35 +374,41 @@ def applyMoves (s : St) : List (Addr × Addr × Int) → St
   | [] => s
   | (a, b, x) :: t => applyMoves (credit (credit s a (-x)) b x) t
 
+/-- observed effect of an EVM call that did not fail: value, extra moves, burn -/
+def evmEffect (s : St) (sender to : Addr) (value : Int) (failed : Bool) (burnt : Int) (moves : List (Addr × Addr × Int)) : St :=
+  if failed then s
+  else
+    let s1 := applyMoves (credit (credit s sender (-value)) to value) moves
+    { credit s1 to (-burnt) with burnt := s1.burnt + burnt }
+
+/-- the message body after preCheck and intrinsic gas: `none` = ApplyTransaction returns an error (the builder reverts);
+otherwise (state, gas the sender finally pays for, gas credited to GasRewards, failed). -/
+def execBody (p : Params) (s : St) (t : Tx) : Option (St × Nat × Nat × Bool) :=
+  match t.body with
+  | .transfer to value =>
+    if balOf s t.sender - (t.gasLimit : Int) * (t.price : Int) < value then none      -- vm.ErrInsufficientBalance
+    else some (credit (credit s t.sender (-value)) to value, t.intrinsic, t.intrinsic, false)
+  | .evm to value failed gasUsed refund burnt moves =>
+    if balOf s t.sender - (t.gasLimit : Int) * (t.price : Int) < value then none
+    else some (evmEffect s t.sender to value failed burnt moves, gasUsed - refund, gasUsed, failed)
+  | .staking decodeOK pt =>
+    if ¬ decodeOK then some (s, t.gasLimit, t.gasLimit, true)
+    else if pt.kind = 1 ∧ t.gasLimit - t.intrinsic < p.valCreationGas then some (s, t.intrinsic, t.intrinsic, true)
+    else
+      let used := t.intrinsic + (if pt.kind = 1 then p.valCreationGas else 0)
+      match handle p s pt with
+      | none => some (s, t.gasLimit, t.gasLimit, true)
+      | some s2 => some (s2, used, used, false)
+
 def applyTx (p : Params) (s : St) (t : Tx) : St × TxOut :=
   if getN s.nonce t.sender ≠ t.nonce then (s, .skipped)
   else if balOf s t.sender < (t.gasLimit : Int) * (t.price : Int) then (s, .skipped)
   else if s.gasPool < t.gasLimit then (s, .skipped)
   else if t.gasLimit < t.intrinsic then (s, .skipped)
   else
-    let s1 := { s with nonce := setN s.nonce t.sender (t.nonce + 1) }
-    match t.body with
-    | .transfer to value =>
-      if balOf s t.sender - (t.gasLimit : Int) * (t.price : Int) < value then (s, .skipped)   -- vm.ErrInsufficientBalance
-      else
-        let s2 := credit (credit s1 t.sender (-value)) to value
-        (settleGas s2 t t.intrinsic t.intrinsic, .included t.intrinsic false)
-    | .evm to value failed gasUsed refund burnt moves =>
-      if balOf s t.sender - (t.gasLimit : Int) * (t.price : Int) < value then (s, .skipped)
-      else
-        let s2 := if failed then s1 else credit (credit s1 t.sender (-value)) to value
-        let s3 := if failed then s2 else applyMoves s2 moves
-        let s4 := if failed then s3 else { credit s3 to (-burnt) with burnt := s3.burnt + burnt }
-        (settleGas s4 t (gasUsed - refund) gasUsed, .included gasUsed failed)
-    | .staking decodeOK pt =>
-      if ¬ decodeOK then (settleGas s1 t t.gasLimit t.gasLimit, .included t.gasLimit true)
-      else if pt.kind = 1 ∧ t.gasLimit - t.intrinsic < p.valCreationGas then
-        (settleGas s1 t t.intrinsic t.intrinsic, .included t.intrinsic true)
-      else
-        let used := t.intrinsic + (if pt.kind = 1 then p.valCreationGas else 0)
-        match handle p s1 pt with
-        | none => (settleGas s1 t t.gasLimit t.gasLimit, .included t.gasLimit true)
-        | some s2 => (settleGas s2 t used used, .included used false)
+    match execBody p { s with nonce := setN s.nonce t.sender (t.nonce + 1) } t with
+    | none => (s, .skipped)
+    | some (s2, charged, rewarded, failed) => (settleGas s2 t charged rewarded, .included rewarded failed)
 
 /-! ## end block -/
 
@@ -411,37 +417,53 @@ def onlineStake : List Val → Nat → Int
   | [], _ => 0
   | v :: t, role => (if v.role = role ∧ v.status = 1 then v.stake else 0) + onlineStake t role
 
-/-- blockRewards + rewardsToPool (V5 branch) -/
-def rewardsToPool (p : Params) (s : St) (coinbase : Addr) : St × Out :=
+def pos (x : Int) : Int := if x > 0 then x else 0
+
+/-- blockRewards: the subsidy taken from the rewards pool account -/
+def subsidyOf (p : Params) (s : St) : Int :=
   let dflt := s.fees + s.residue
   let poolBal := balOf s p.poolAddr
-  let subsidy : Int :=
-    if 0 ≤ dflt ∧ dflt < 18446744073709551616 ∧ dflt < p.subsidyThreshold ∧ poolBal > 0 then
-      let want : Int := ((p.subsidyThreshold - dflt.toNat) / 10 * p.subsidyCoeff : Nat)
-      if poolBal < want then poolBal else want
-    else 0
-  let tot := (if s.fees > 0 then s.fees else 0) + (if s.residue > 0 then s.residue else 0) + (if subsidy > 0 then subsidy else 0)
-  let s := if subsidy > 0 then credit s p.poolAddr (-subsidy) else s
-  if tot ≤ 0 then (s, .ok)
-  else
-    let on := fun r => onlineCount s.vals r > 0
-    let portions : Nat := (if on 1 then p.ratio 1 else 0) + (if on 2 then p.ratio 2 else 0) + (if on 3 then p.ratio 3 else 0)
-    if portions = 0 then (s, .crash)           -- QuoRem by zero panics
-    else
-      let per := tot / portions
-      let res := tot % portions
-      match getVal s.vals coinbase with
-      | none => (s, .crash)                    -- logging.Crit: proposer not in the validator set
-      | some pr =>
-        let chamber : Int := (if on 1 then per * p.ratio 1 else 0) + (if on 2 then per * p.ratio 2 else 0)
-        let house : Int := if on 3 then per * p.ratio 3 else 0
-        let pr' := { pr with lastActive := s.number, rewards := pr.rewards + chamber }
-        ({ s with vals := putVal s.vals pr', pool3 := s.pool3 + house, residue := res, fees := 0 }, .ok)
+  if 0 ≤ dflt ∧ dflt < 18446744073709551616 ∧ dflt < p.subsidyThreshold ∧ poolBal > 0 then
+    let want : Int := ((p.subsidyThreshold - dflt.toNat) / 10 * p.subsidyCoeff : Nat)
+    if poolBal < want then poolBal else want
+  else 0
+
+def roleOn (vs : List Val) (r : Nat) : Bool := onlineCount vs r > 0
+def portionsOf (p : Params) (vs : List Val) : Nat :=
+  (if roleOn vs 1 then p.ratio 1 else 0) + (if roleOn vs 2 then p.ratio 2 else 0) + (if roleOn vs 3 then p.ratio 3 else 0)
+def chamberShare (p : Params) (vs : List Val) (per : Int) : Int :=
+  (if roleOn vs 1 then per * p.ratio 1 else 0) + (if roleOn vs 2 then per * p.ratio 2 else 0)
+def houseShare (p : Params) (vs : List Val) (per : Int) : Int := if roleOn vs 3 then per * p.ratio 3 else 0
+
+/-- rewardsToPool, V5 branch: chamber shares to the proposer, house share to the house pool, remainder to the residue -/
+def distributeBlock (p : Params) (s : St) (pr : Val) (per res : Int) : St :=
+  { s with vals := putVal s.vals { pr with lastActive := s.number, rewards := pr.rewards + chamberShare p s.vals per },
+           pool3 := s.pool3 + houseShare p s.vals per, residue := res, fees := 0 }
+
+/-- blockRewards + rewardsToPool (V5 branch) -/
+def rewardsToPool (p : Params) (s : St) (coinbase : Addr) : St × Out :=
+  let subsidy := subsidyOf p s
+  let tot := pos s.fees + pos s.residue + pos subsidy
+  let s1 := if subsidy > 0 then credit s p.poolAddr (-subsidy) else s
+  if tot ≤ 0 then (s1, .ok)
+  else if portionsOf p s1.vals = 0 then (s1, .crash)       -- QuoRem by zero panics
+  else match getVal s1.vals coinbase with
+    | none => (s1, .crash)                                 -- logging.Crit: proposer not in the validator set
+    | some pr => (distributeBlock p s1 pr (tot / portionsOf p s1.vals) (tot % portionsOf p s1.vals), .ok)
 
 /-- pay `per * stake` to every delegator; returns the new balances and what is left of `tot` -/
 def payDelegs (bal : List (Addr × Int)) (per : Int) (tot : Int) : List Deleg → List (Addr × Int) × Int
   | [] => (bal, tot)
   | d :: t => payDelegs (addI bal d.who (per * d.stake)) per (tot - per * d.stake) t
+
+/-- the distribution part of settleValidatorRewards, for given commission, per-stake reward and expected residue -/
+def settleMain (s : St) (v : Val) (commission per residue : Int) : St × Out :=
+  let selfReward := per * v.selfStake
+  let r := payDelegs (addI s.bal v.coinbase (selfReward + commission)) per (v.rewards - commission - selfReward) v.delegs
+  if r.2 ≠ residue then (s, .crash)              -- logging.Crit "validator rewards distribution fatal"
+  else
+    ({ s with bal := if v.status ≠ 1 then addI r.1 v.coinbase residue else r.1,
+              vals := putVal s.vals { v with rewards := if v.status ≠ 1 then 0 else residue, lastSettled := s.number } }, .ok)
 
 /-- settleValidatorRewards(ctx, val, currRound): `v` is the object the caller holds, which `putVal` writes back. -/
 def settle (s : St) (v : Val) : St × Out :=
@@ -450,18 +472,7 @@ def settle (s : St) (v : Val) : St × Out :=
   else if v.stake = 0 ∨ v.rewards = 0 then (s, .ok)
   else
     let commission : Int := if v.commission > 0 then v.rewards * v.commission / 10000 else 0
-    let tot := v.rewards - commission
-    let per := tot / v.stake
-    let residue := tot % v.stake
-    let selfReward := per * v.selfStake
-    let bal1 := addI s.bal v.coinbase (selfReward + commission)
-    let (bal2, left) := payDelegs bal1 per (tot - selfReward) v.delegs
-    if left ≠ residue then (s, .crash)          -- logging.Crit "validator rewards distribution fatal"
-    else
-      let offline := v.status ≠ 1
-      let bal3 := if offline then addI bal2 v.coinbase residue else bal2
-      let keep := if offline then 0 else residue
-      ({ s with bal := bal3, vals := putVal s.vals { v with rewards := keep, lastSettled := s.number } }, .ok)
+    settleMain s v commission ((v.rewards - commission) / v.stake) ((v.rewards - commission) % v.stake)
 
 /-! ### penalties (slash.go) -/
 
